@@ -2094,7 +2094,7 @@ def check_list_optimal_d(chk, tier, d):
     known = lot_known(d) if open_finding(chk, 'C11.ListOptimalTrials.no_nan_objective') else None
     LOT_NAN_OPEN = known is not None
     Fn(chk, tier, LOT, lot_entry(d), lot_post(d), replay_of=lot_replay(d), known=known,
-       bounded_sizes=([(2, d), (2, d, 'perm'), (3, d)] if d > 1 else [(2, 1), (3, 1)]) if d else [(2, 1)],
+       bounded_sizes=([(2, d)] + ([(2, d, 'perm')] if d == 2 else []) + ([(3, d)] if d == 2 else []) if d > 1 else [(2, 1), (3, 1)]) if d else [(2, 1)],
        rename=(lambda n, rn=rn, tag=tag: rn(n) + tag), workers=3, expect_paths=3,
        timeout_ms=4000 if tier == 'quick' else 60000).run()
 
